@@ -128,6 +128,12 @@ class Fresh:
     return {'v': next(self.c)}
 
 
+def gen_ann(r, sig, p=0.35):
+  """Annotated[...] tags for some parameters, in signature order (any kind of parameter)."""
+  return [[q[0], sorted(r.sample(range(len(targets.TAGS)), r.randint(1, 2)))]
+          for q in sig if r.random() < p]
+
+
 def gen_init(r, sig, fresh, malformed=0.1, allow_tv=False):
   """Constructor arguments (mostly valid)."""
   pos = [p for p in sig if p[1] in ('po', 'pk')]
@@ -349,7 +355,7 @@ def real_step(cfg, op):
 
 def run_real(case, species='function', buildable=fdl.Config, with_build=True):
   """Runs a case on the real code; same shape as the driver's response."""
-  fn = targets.make_fn(case['sig'], species)
+  fn = targets.make_fn(case['sig'], species, ann=case.get('ann'))
   fdl_history.set_tracking(True)
   try:
     try:
